@@ -3,6 +3,7 @@ equal to Model.Restart.step; correspondence of restart_state on random histories
 import json
 import random
 from vlib import core
+from props import poolcommon as pc
 from vlib.core import cz, copt, clist, cbool
 
 MANIFEST = dict(
@@ -75,12 +76,15 @@ def correspond(res, n):
 
 
 def run(res):
-    res.proof_step('Props/C11.v', extra_targets=['Model/Restart.vo'],
+    res.proof_step('Props/C11.v', extra_targets=['Model/Restart.vo', 'Model/Pool.vo'],
                            kernels_needed=['K_restart'])
     n = 300 if res.tier == 'quick' else 20000
     if res.broken:
         n = max(n, 5000)      # failing-input search
     correspond(res, n)
+    # pool half: which exits consult the limiter, against the proved pool model
+    pc.pool_check(res, 'C11', 100 if res.tier == 'quick' else 4000, focus={'exit': 12, 'tick': 14, 'advance': 10, 'ack': 6, 'apply': 6},
+                  cfg=lambda rng: dict(pc.random_cfg(rng), max_restarts=rng.choice([1, 2, 3])))
     res.assumptions += [
         'times are exact integers in the harness (float rounding of monotonic() not modelled)',
         'monotonic() never returns 0 (a window opened at exactly 0.0 would be treated as unset by `if self.T`)',
